@@ -212,6 +212,18 @@ CLAIMS = {
         "PARTIAL: basis rotation and numpy's choice are modelled, not verified.",
         COMMON_NOTE,
         "DESIGN.md §3 C12"),
+    "C05": (
+        "Coq proof (time budget of the dynamic TDVP half sweep by induction over the chain, for every one-/two-site pattern; equal unitary-step counts of the two pipeline orders) + exact step-list correspondence with the real sweep under identity stubs + dense exp(-iHt) search",
+        "Machine-checked proof that for every chain length and every pattern of one-site / two-site branches the bond cap can induce "
+        "(including the lock_final_site cases) each half sweep of local_dynamic_tdvp gives every site net time +dt/2 and every bond "
+        "net time -dt/2 in the projector-splitting accounting, and that without noise both pipeline orders apply the same number of "
+        "unitary steps per column. The model's step list (kind, site, direction) is compared exactly with the real sweep run with "
+        "recording identity kernels on random bond patterns and caps. PARTIAL: exactness of the local Krylov steps (C19), truncation "
+        "error (C09), second order of the symmetric splitting / first order of BUG are not mechanised; the search checks norm and "
+        "energy drift and the error against the dense exp(-iHt) at dt and dt/2 (ratio test above the noise floor) and the agreement "
+        "of the two integrator orders.",
+        COMMON_NOTE,
+        "DESIGN.md §3 C05"),
 }
 
 NOT_YET = "check not built yet in this round (planned in DESIGN.md §3); no claim is made"
